@@ -37,8 +37,8 @@ class SemiSampler:
         self.dataset = dataset
         self.num_labeled = num_labeled
         self.num_unlabeled = num_unlabeled
-        self.rank = rank or get_rank()
-        self.world_size = world_size or get_world_size()
+        self.rank = get_rank() if rank is None else rank
+        self.world_size = get_world_size() if world_size is None else world_size
         self.epoch = 0
         self.seed = seed
         assert length_mode in ["labeled", "unlabeled", "all"]
